@@ -1,7 +1,7 @@
 (* C15, program level, programs WITH type parameters and type arguments: check (the code as it is,
    and the code before fix d524b1f) accepts only programs that satisfy the declarative rules -
    provided the types written inside data/codata declarations are well-formed ([decl_types_wf],
-   the complement of the former finding C15-lazy-declaration-types; since fix <commit15> the checker
+   the complement of the former finding C15-lazy-declaration-types; since fix eb42971 the checker
    establishes it, Proof/CheckDecls.v, and Proof/CheckFixed.v drops the hypothesis) and all type / constructor / destructor names are identifier-like ([prog_names_ok]; true of
    every parsed program). *)
 From Coq Require Import List ZArith String Bool Permutation Lia.
@@ -77,7 +77,7 @@ Section Defs.
       rewrite C2, andb_true_r. eapply ty_declared_mono; [apply (grows_names_le _ _ G2)|]. apply has_inst_declared. exact Hi1.
   Qed.
 
-  (* def.rs, since fix <commit12>: the return type of `main` is compared with i64 *)
+  (* def.rs, since fix 5b8c76f: the return type of `main` is compared with i64 *)
   Lemma main_ret_check_psound : forall d st st', ty_names_ok (fdret d) = true -> tables ts fs st -> pinv ts st ->
     main_ret_check d st = COk st' -> main_ret_ok d = true /\ pinv ts st' /\ same_templates st st' /\ grows st st'.
   Proof.
